@@ -5,12 +5,17 @@
    feature_local.go, operations.go, nodemanagement_detaileddiscovery.go by the
    correspondence harness cmd/c07), the property is the trace monitor Spec/TreeSpec.v
    (the same extracted monitor judges the implementation's traces).  Schedules are part
-   of the operation list: a concurrent GetOrAddFeature is GLookup t / GCreate t, so
-   "forall ops" is "for all histories and all interleavings". *)
+   of the operation list: a concurrent GetOrAddFeature is GLookup t / GCreate t, a discovery
+   read that overlaps other calls is ReadBegin t p / ReadEnd t (the entity list is taken,
+   then the reply is built from it: the two critical sections of the handler), so
+   "forall ops" is "for all histories and all interleavings" of reads with entity, feature
+   and function additions and removals and with GetOrAddFeature steps. *)
 From Verif Require Import Base.Prelude Model.LocalTree Spec.TreeSpec Proofs.TreeProofs.
 
 (* Every history, every schedule: every discovery reply is exactly render(current tree)
-   (REPLY), every announced address resolves to that feature (RESOLVE), AddEntity /
+   -- for a read that overlaps other calls: it lists exactly the entities that were
+   members at a moment during the call (its ReadBegin), each described as it is when the
+   reply is built -- (REPLY), every announced address resolves to that feature (RESOLVE), AddEntity /
    RemoveEntity send exactly one partial notification per subscription entry on node
    management with the right content and nothing else (NOTIFY), no feature id is handed
    out twice within an entity (FRESH), GetOrAddFeature returns the one feature of the
@@ -48,6 +53,51 @@ Theorem C07_get_or_add_sched : forall ops e o,
 Proof. exact type_role_unique. Qed.
 Print Assumptions C07_get_or_add_sched.
 
+(* Snapshot semantics of the two-step read, explicitly: after any history ops1, a read begun
+   on a free thread t and ended after ANY operations ops2 of other threads (entities,
+   features, functions added and removed, GetOrAddFeature steps, other reads begun and
+   ended) replies with exactly the entities that were members at its ReadBegin, in that
+   order, each with the type, features and operations it has at ReadEnd. *)
+Theorem C07_read_snapshot : forall ops1 t p ops2,
+  let s1 := fst (run init ops1) in
+  let s2 := fst (run init (ops1 ++ ReadBegin t p :: ops2)) in
+  assoc_N t (rds s1) = None -> ~ In (ReadEnd t) ops2 ->
+  snd (step s2 (ReadEnd t)) = render_reply_of s2 p (members s1).
+Proof. exact read_snapshot. Qed.
+Print Assumptions C07_read_snapshot.
+
+(* the uninterrupted read is ReadBegin; ReadEnd on a free thread: same reply, same state *)
+Theorem C07_read_atomic : forall s t p,
+  assoc_N t (rds s) = None ->
+  let sb := fst (step s (ReadBegin t p)) in
+  snd (step s (ReadBegin t p)) = [Parked] /\
+  snd (step sb (ReadEnd t)) = snd (step s (Read p)) /\ fst (step sb (ReadEnd t)) = s.
+Proof. exact read_atomic. Qed.
+Print Assumptions C07_read_atomic.
+
+(* RemoveEntity compacting the backing array in place (slices.DeleteFunc) while
+   DeviceLocal.Entities() hands out the slice itself: a read that took its list before the
+   removal walks the shifted array, skips the entity after the removed one and panics on
+   the zeroed tail -- no reply.  The monitor rejects it (REPLY). *)
+Definition c07_inplace_witness : list op :=
+  [NewEntity 1 2; NewEntity 2 3; AddEntity 1; AddEntity 2; ReadBegin 0 0; RemoveEntity 1; ReadEnd 0].
+Theorem C07_inplace_remove_refuted :
+  exists ops, strictly_accepted (judge minit sinit (snd (run_inplace init ops))) = false.
+Proof. exists c07_inplace_witness. vm_compute. reflexivity. Qed.
+Print Assumptions C07_inplace_remove_refuted.
+
+Example C07_inplace_witness_outputs :
+  map snd (snd (run_inplace init c07_inplace_witness)) = [[Created]; [Created]; []; []; [Parked]; []; [ReadPanicked]] /\
+  judge minit sinit (snd (run_inplace init c07_inplace_witness)) =
+    [([], []); ([], []); ([], []); ([], []); ([], []); ([], []); ([CL_REPLY], [])] /\
+  nth 6 (map snd (snd (run init c07_inplace_witness))) [] =
+    [RBegin 0 true; REnt 0 1 0; REnt 1 2 0; REnt 2 3 0;
+     RFeat 0 0 1 3 0 0 1 3; RFn 1 true false false false; RFn 2 true false false false; RFn 3 true false false false;
+     RFn 4 false false false false; RFn 5 false false false false; RFn 6 true false false false;
+     RFn 7 false false false false; RFn 8 false false false false; RFn 9 true false false false;
+     RFeat 0 1 2 2 0 1 2 2; RFn 10 true false false false; REnd]%N.
+Proof. vm_compute. repeat split; reflexivity. Qed.
+
 (* The pinned GetOrAddFeature (no second look under the lock): two goroutines both miss,
    both create; they obtain different features and the entity holds two of one type and role. *)
 Definition c07_witness : list op :=
@@ -64,13 +114,15 @@ Proof. vm_compute. split; reflexivity. Qed.
 
 (* Non-vacuity: a server feature with functions, a duplicate (type, role) dropped but its id
    consumed, a client feature ignoring functions, a peer subscribed with two features gets two
-   notifications, another peer one, reads before and after, removal notification without features. *)
+   notifications, another peer one, reads before and after, removal notification without features;
+   a read of peer 1 begun before RemoveEntity 1 and ended after it still lists entity 1 with its
+   features (whose addresses do not resolve any more: 0 0 0), a second ReadEnd finds no thread. *)
 Example C07_nonvacuous :
   let ops := [NewEntity 1 5; AddFeature 1 4 2 3 [(11, true, true, true); (12, true, false, false)]%N;
               AddFeature 1 4 2 0 []; AddFeature 1 5 1 0 [(13, true, true, true)]%N;
               Subscribe 0 0; Subscribe 0 2; Subscribe 1 1; Subscribe 1 1; AddEntity 1; AddEntity 1;
               GetOrAdd 1 4 2; GetOrAdd 1 6 2; AddFunction 1 4 15 true false false; Read 2;
-              RemoveEntity 1; Unsubscribe 0 0; NextId 1] in
+              ReadBegin 5 1; RemoveEntity 1; Unsubscribe 0 0; NextId 1; ReadEnd 5; ReadEnd 5] in
   let feats1 := [RFeat 1 1 4 2 4 1 4 2; RFn 11 true false true true; RFn 12 true false false false;
                  RFeat 1 3 5 1 0 3 5 1]%N in
   map snd (snd (run init ops)) =
@@ -85,7 +137,43 @@ Example C07_nonvacuous :
        RFn 7 false false false false; RFn 8 false false false false; RFn 9 true false false false;
        RFeat 0 1 2 2 0 1 2 2; RFn 10 true false false false] ++ feats1 ++
       [RFeat 1 4 6 2 1 4 6 2; RFn 15 true false false false; REnd])%N;
+     [Parked];
      [NBegin 0 0 true; REnt 1 5 2; REnd; NBegin 0 2 true; REnt 1 5 2; REnd; NBegin 1 1 true; REnt 1 5 2; REnd]%N;
-     [SubRes true]; [FeatId 5]]%N /\
+     [SubRes true]; [FeatId 5];
+     [RBegin 1 true; REnt 0 1 0; REnt 1 5 0;
+      RFeat 0 0 1 3 0 0 1 3; RFn 1 true false false false; RFn 2 true false false false; RFn 3 true false false false;
+      RFn 4 false false false false; RFn 5 false false false false; RFn 6 true false false false;
+      RFn 7 false false false false; RFn 8 false false false false; RFn 9 true false false false;
+      RFeat 0 1 2 2 0 1 2 2; RFn 10 true false false false;
+      RFeat 1 1 4 2 4 0 0 0; RFn 11 true false true true; RFn 12 true false false false;
+      RFeat 1 3 5 1 0 0 0 0; RFeat 1 4 6 2 1 0 0 0; RFn 15 true false false false; REnd]%N;
+     [NoThread]]%N /\
+  strictly_accepted (judge minit sinit (snd (run init ops))) = true.
+Proof. vm_compute. split; reflexivity. Qed.
+
+(* Non-vacuity of the overlapped reads: thread 7 (peer 1) takes [0;1;2]; a second ReadBegin on
+   the busy thread is refused; then entity 1 is removed, entity 2 gets a feature, a feature of
+   entity 1 gets a function, entity 3 is added, thread 8 (peer 2) takes [0;2;3], entity 1 is added
+   again.  ReadEnd 7 lists 0, 1, 2 -- not 3 -- with the feature and the function added meanwhile
+   (entity 1 is a member again: its address resolves); entity 2 is removed; ReadEnd 8 lists
+   0, 2, 3 with entity 2's feature not resolving; the final uninterrupted read lists 0, 3, 1. *)
+Example C07_nonvacuous_overlapped_reads :
+  let ops := [NewEntity 1 5; NewEntity 2 3; NewEntity 3 4; AddFeature 1 4 2 0 [(11, true, false, false)]%N;
+              AddEntity 1; AddEntity 2; ReadBegin 7 1; ReadBegin 7 2; RemoveEntity 1; AddFeature 2 5 2 0 [];
+              AddFunction 1 1 12 true true false; AddEntity 3; ReadBegin 8 2; AddEntity 1; ReadEnd 7;
+              RemoveEntity 2; ReadEnd 8; ReadEnd 7; Read 0] in
+  let e0 := [RFeat 0 0 1 3 0 0 1 3; RFn 1 true false false false; RFn 2 true false false false; RFn 3 true false false false;
+             RFn 4 false false false false; RFn 5 false false false false; RFn 6 true false false false;
+             RFn 7 false false false false; RFn 8 false false false false; RFn 9 true false false false;
+             RFeat 0 1 2 2 0 1 2 2; RFn 10 true false false false]%N in
+  map snd (snd (run init ops)) =
+    [[Created]; [Created]; [Created]; [FeatId 1]; []; []; [Parked]; [BusyT]; []; [FeatId 1]; [OkDone]; []; [Parked]; [];
+     ([RBegin 1 true; REnt 0 1 0; REnt 1 5 0; REnt 2 3 0] ++ e0 ++
+      [RFeat 1 1 4 2 0 1 4 2; RFn 11 true false false false; RFn 12 true false true false; RFeat 2 1 5 2 0 1 5 2; REnd])%N;
+     [];
+     ([RBegin 2 true; REnt 0 1 0; REnt 2 3 0; REnt 3 4 0] ++ e0 ++ [RFeat 2 1 5 2 0 0 0 0; REnd])%N;
+     [NoThread];
+     ([RBegin 0 true; REnt 0 1 0; REnt 3 4 0; REnt 1 5 0] ++ e0 ++
+      [RFeat 1 1 4 2 0 1 4 2; RFn 11 true false false false; RFn 12 true false true false; REnd])%N]%N /\
   strictly_accepted (judge minit sinit (snd (run init ops))) = true.
 Proof. vm_compute. split; reflexivity. Qed.
